@@ -297,6 +297,9 @@ func (store ItemVarStore) GetDelta(index VariationStoreIndex, coords []Coord) fl
 	deltaSet := varData.DeltaSets[index.DeltaSetInner]
 	var delta float32
 	for i, regionIndex := range varData.RegionIndexes {
+		if int(regionIndex) >= len(store.VariationRegionList.VariationRegions) || i >= len(deltaSet) { // invalid font
+			continue
+		}
 		region := store.VariationRegionList.VariationRegions[regionIndex]
 		v := region.Evaluate(coords)
 		delta += float32(deltaSet[i]) * v
@@ -308,6 +311,9 @@ func (store ItemVarStore) GetDelta(index VariationStoreIndex, coords []Coord) fl
 func (vr VariationRegion) Evaluate(coords []Coord) float32 {
 	v := float32(1)
 	for axis, coord := range coords {
+		if axis >= len(vr.RegionAxes) { // more coordinates than axes in the region
+			break
+		}
 		factor := vr.RegionAxes[axis].evaluate(coord)
 		v *= factor
 	}
